@@ -102,7 +102,7 @@ def pooledForward : List (String × String × List String × List (String × Str
   ("decr", "decr", ["key", "value"], [("noreply", "noreply")]),
   ("touch", "touch", ["key"], [("expire", "expire"), ("noreply", "noreply")])
 ]
-def pooledCreateClientKw : List (String × String) := [("serde", "self.serde"), ("connect_timeout", "self.connect_timeout"), ("timeout", "self.timeout"), ("no_delay", "self.no_delay"), ("ignore_exc", "False"), ("socket_module", "self.socket_module"), ("socket_keepalive", "self.socket_keepalive"), ("key_prefix", "self.key_prefix"), ("default_noreply", "self.default_noreply"), ("allow_unicode_keys", "self.allow_unicode_keys"), ("tls_context", "self.tls_context")]
+def pooledCreateClientKw : List (String × String) := [("serde", "self.serde"), ("connect_timeout", "self.connect_timeout"), ("timeout", "self.timeout"), ("no_delay", "self.no_delay"), ("ignore_exc", "False"), ("socket_module", "self.socket_module"), ("socket_keepalive", "self.socket_keepalive"), ("key_prefix", "self.key_prefix"), ("default_noreply", "self.default_noreply"), ("allow_unicode_keys", "self.allow_unicode_keys"), ("encoding", "self.encoding"), ("tls_context", "self.tls_context")]
 def hashDefaultKwargs : List String := ["allow_unicode_keys", "connect_timeout", "default_noreply", "deserializer", "encoding", "key_prefix", "no_delay", "serde", "serializer", "socket_keepalive", "socket_module", "timeout", "tls_context"]
 def hashPooledDefaultKwargs : List String := ["allow_unicode_keys", "connect_timeout", "default_noreply", "deserializer", "encoding", "key_prefix", "lock_generator", "max_pool_size", "no_delay", "pool_idle_timeout", "serde", "serializer", "socket_keepalive", "socket_module", "timeout", "tls_context"]
 def clientCtorParams : List String := ["server", "serde", "serializer", "deserializer", "connect_timeout", "timeout", "no_delay", "ignore_exc", "socket_module", "socket_keepalive", "key_prefix", "default_noreply", "allow_unicode_keys", "encoding", "tls_context"]
